@@ -352,30 +352,50 @@ def forms(model, rep):
         rep.check(got, 'C03.EX', model.func(RN + '.resolve_names').loc(), 'resolver: %s with a nonlocal name' % label, 'reference added to the outer binding',
                   'a %s whose name is declared nonlocal is not attached to the outer binding: renaming the outer binding leaves this mention behind' % label, key='C03.EX|resolver|' + label)
     rep.floor('C03.EX', 90)
-    # ---- SIB: printer prints the same field
-    MP = 'python_minifier.module_printer.ModulePrinter'
-    pf = {'Name': ('visit_Name', 'id'), 'FunctionDef': ('visit_FunctionDef', 'name'), 'ClassDef': ('visit_ClassDef', 'name'), 'alias': ('visit_alias', 'asname'), 'arg': ('visit_arg', 'arg'),
-          'ExceptHandler': ('visit_ExceptHandler', 'name'), 'Global': ('visit_Global', 'names'), 'Nonlocal': ('visit_Nonlocal', 'names'), 'MatchAs': ('visit_MatchAs', 'name'),
-          'MatchStar': ('visit_MatchStar', 'name'), 'MatchMapping': ('visit_MatchMapping', 'rest'), 'TypeVar': ('visit_TypeVar', 'name'), 'ParamSpec': ('visit_ParamSpec', 'name'),
-          'TypeVarTuple': ('visit_TypeVarTuple', 'name')}
-    for cls, (meth, field) in sorted(pf.items()):
-        fi = model.method(MP, meth)
-        if fi is None:
-            rep.violation('C03.SIB', 'src/python_minifier/module_printer.py', 'printer: ' + cls, 'no %s' % meth, key='C03.SIB|' + cls)
+    # ---- SIB: the printer prints the field the renamer writes. Decided by printing: a probe program is parsed, the identifier field of the node is
+    # overwritten the way Binding.rename does it, the tree is printed by the repository's printer (abstractly run) and parsed back.
+    from ..absprint import print_module, same_tree
+    sib = {'Name': ('OLD = 1\n', 'id'), 'FunctionDef': ('def OLD(): pass\n', 'name'), 'AsyncFunctionDef': ('async def OLD(): pass\n', 'name'), 'ClassDef': ('class OLD: pass\n', 'name'),
+           'alias': ('import a as OLD\n', 'asname'), 'arg': ('def f(OLD): pass\n', 'arg'), 'ExceptHandler': ('try: pass\nexcept E as OLD: pass\n', 'name'),
+           'Global': ('def f():\n    global OLD, b\n', 'names'), 'Nonlocal': ('def f():\n    OLD = b = 1\n    def g():\n        nonlocal OLD, b\n', 'names'),
+           'MatchAs': ('match x:\n    case 1 as OLD: pass\n', 'name'), 'MatchStar': ('match x:\n    case [*OLD]: pass\n', 'name'), 'MatchMapping': ('match x:\n    case {**OLD}: pass\n', 'rest'),
+           'TypeVar': ('def f[OLD](): pass\n', 'name'), 'ParamSpec': ('def f[**OLD](): pass\n', 'name'), 'TypeVarTuple': ('def f[*OLD](): pass\n', 'name')}
+    MPP = 'src/python_minifier/module_printer.py'
+    for cls, (probe, field) in sorted(sib.items()):
+        try:
+            tree = ast.parse(probe)
+        except SyntaxError:
+            rep.note('C03.SIB: this interpreter cannot parse the %s probe' % cls)
             continue
-        param = fi.positional[0]
-        defs = local_defs(fi.node)
+        hit = None
+        for n_ in ast.walk(tree):
+            if type(n_).__name__ == cls:
+                v = getattr(n_, field, None)
+                if v == 'OLD':
+                    setattr(n_, field, 'NEW')
+                    hit = n_
+                elif isinstance(v, list) and 'OLD' in v:
+                    setattr(n_, field, ['NEW' if x == 'OLD' else x for x in v])
+                    hit = n_
+                if hit is not None:
+                    break
+        if hit is None:
+            raise AnalysisError('SIB probe for %s has no node carrying OLD in .%s' % (cls, field))
+        import copy
+        kind, text = print_module(model, copy.deepcopy(tree))
+        if kind == 'undecided':
+            raise AnalysisError('UNDECIDED: printing the %s probe: %s' % (cls, text))
         ok = False
-        for c in calls(fi.node):
-            if isinstance(c.func, ast.Attribute) and c.func.attr == 'identifier' and c.args:
-                a = c.args[0]
-                if isinstance(a, ast.Attribute) and src(a.value) == param and a.attr == field:
-                    ok = True
-                elif isinstance(a, ast.Name):
-                    for d in defs.get(a.id, []):
-                        if isinstance(d, tuple) and d[0] == '<iter>' and src(d[1]) == '%s.%s' % (param, field):
-                            ok = True
-        rep.check(ok, 'C03.SIB', fi.loc(), 'printer: %s prints %s.%s as an identifier' % (cls, param, field), 'same field the renamer writes', 'the printer does not print %s.%s (the field the renamer writes)' % (cls, field), key='C03.SIB|' + cls)
+        why = '%s: %s' % (kind, str(text)[:80])
+        if kind == 'ok':
+            try:
+                back = ast.parse(text)
+                ok = same_tree(tree, back)
+                why = 'printed as %r' % text
+            except SyntaxError as e:
+                why = 'printed text %r does not parse: %s' % (text, e)
+        rep.check(ok, 'C03.SIB', MPP, 'printer: %s.%s overwritten with a new name -> %s' % (cls, field, why), 'the new name is what is printed',
+                  'after %s.%s is renamed the printed program does not carry the new name there (%s): the printer reads a different field than the renamer writes' % (cls, field, why), key='C03.SIB|' + cls)
     rep.floor('C03.SIB', 14)
 
 
